@@ -493,9 +493,11 @@ def validate(module, files, cfg=None, env=None, timeout=1500, max_lines=60000, n
     for sh_, rc, o in results:
         if rc == 124:
             raise RuntimeError("TLC timeout validating %s" % sh_)
-        if "Parsing or semantic analysis failed" in o or "TLC threw an unexpected exception" in o or \
-           ("Error:" in o and "Postcondition" not in o and "postcondition" not in o):
+        if "Parsing or semantic analysis failed" in o or "TLC threw an unexpected exception" in o or "OutOfMemoryError" in o:
             raise RuntimeError("TLC error validating %s:\n%s" % (sh_, o[-5000:]))
+        # an evaluation error on an event (e.g. a field the recorder could not fill in because the library refused
+        # something the model says it must accept) is a trace the specification does not accept: reported as a rejected
+        # trace with TLC's message, not as a failure of the harness
         lines = None
         for m in re.finditer(r'^"VIOL (\d+) (.*)"$', o, re.M):
             if lines is None:
